@@ -111,6 +111,12 @@ func buildTaffif(unitCostStr string) *charging_datatype.MonetaryTariff {
 	unitCost := &charging_datatype.UnitCost{}
 
 	dotPos := strings.Index(unitCostStr, ".")
+	if dotPos != -1 {
+		// trailing zeros of the fraction carry no value: "250.000" is 250. Keeping them makes the digits
+		// overflow (15 and more decimals) and the float conversion of digits x 10^exponent round down
+		unitCostStr = strings.TrimSuffix(strings.TrimRight(unitCostStr, "0"), ".")
+		dotPos = strings.Index(unitCostStr, ".")
+	}
 	if dotPos == -1 {
 		unitCost.Exponent = datatype.Integer32(0)
 		if digit, err := strconv.Atoi(unitCostStr); err == nil {
